@@ -124,7 +124,7 @@ def new_stats():
     return {"evaluations": 0, "shapes": {}, "join_kinds": {}, "aggs": {}, "impl_status": {}, "nonempty": 0,
             "model_vs_impl": {"compared": 0, "disagree": 0}, "impl_vs_oracle": {"compared": 0, "disagree": 0},
             "model_vs_oracle": {"compared": 0, "disagree": 0}, "l1_of_optimised_vs_l1_of_query": {"compared": 0, "disagree": 0},
-            "tags": {}, "distinct": set(), "physical_ops": {}, "order_sensitive_skipped": 0, "engines": {}, "limit_unordered": 0, "order_key_sequences": 0, "scalar_sub": 0, "scalar_sub_shapes": {}, "scalar_sub_dup_outer": 0, "chunks_per_table": {}, "rows_per_table": {}, "disk_disabled_after_timeouts": False}
+            "tags": {}, "distinct": set(), "physical_ops": {}, "order_sensitive_skipped": 0, "engines": {}, "limit_unordered": 0, "sql_regressions": 0, "order_key_sequences": 0, "scalar_sub": 0, "scalar_sub_shapes": {}, "scalar_sub_dup_outer": 0, "chunks_per_table": {}, "rows_per_table": {}, "disk_disabled_after_timeouts": False}
 
 
 def neutralise_limits(plan):
@@ -211,6 +211,19 @@ def decide(ck, c, ir, mr, stats, engine="memory"):
     stats["shapes"][sc] = stats["shapes"].get(sc, 0) + 1
     rep = {"sql": c["sql"], "sqlite": c["sqlite"], "tables": c["tables"], "logical": c["logical"], "shape": shape,
            "engine": engine, "limit": limit, "ordered": ordered}
+    if "expect" in c:
+        # SQL regression input with a fixed expected answer (constructs outside the SQLite-comparable core,
+        # e.g. RisingLight's running-aggregate window functions): implementation vs the recorded rows only
+        stats["sql_regressions"] += 1
+        if ir is None:
+            ck.report("corr:missing-answer", "case %s (%s): no answer from implementation" % (cid, engine), replay=rep, found_input=False)
+            return
+        ist = ir[0].split(";")[0].strip()
+        irows = parse_rows(ir[0].split(";", 1)[1] if ";" in ir[0] else "")
+        want = [tuple(r) for r in c["expect"]]
+        if ist != "ok" or [tuple(r) for r in irows] != want:
+            ck.report(c.get("regression_sig", "regression:" + cid), "regression input `%s`: returns %s %s, expected %s" % (c["sql"], ist, irows[:8], want[:8]), replay=rep)
+        return
     if ir is None or mr is None:
         ck.report("corr:missing-answer", "case %s (%s): no answer from %s" % (cid, engine, "implementation" if ir is None else "model"), replay=rep, found_input=False)
         return
@@ -435,6 +448,7 @@ def run(ck):
                          "engines": stats["engines"],
                          "chunks_per_table (one INSERT = one scan chunk; clustered tables keep the partner rows in one chosen chunk)": dict(sorted(stats["chunks_per_table"].items())),
                          "rows_per_table": stats["rows_per_table"],
+                         "sql_regression_inputs_with_fixed_expected_rows": stats["sql_regressions"],
                          "order_by_on_padded_side_key_over_outer_join (keyed t1; sequence on the key compared)": stats["order_key_sequences"],
                          "correlated_scalar_aggregate_subqueries": {"runs": stats["scalar_sub"], "outer_table_with_duplicate_rows": stats["scalar_sub_dup_outer"],
                                                                     "agg/form": dict(sorted(stats["scalar_sub_shapes"].items()))}, "disk_disabled_after_3_timeouts": stats["disk_disabled_after_timeouts"],
